@@ -70,6 +70,7 @@ type c04obs struct {
 	hFinal     int64
 	hVer       int64 // H's current version at the end
 	hSubVer    int64
+	advSubV    int64 // sub-channel version the adversary registered
 }
 
 func c04exec(t *testing.T, ssc schedrun.Scenario, o vsched.Options) (*vsched.Sched, any) {
@@ -128,6 +129,9 @@ func c04exec(t *testing.T, ssc schedrun.Scenario, o vsched.Options) (*vsched.Sch
 				return nil
 			}
 			vsched.WaitCond("adversary.wait", func() bool {
+				if pr.Late && pr.Sub {
+					return find(ca.ID(), target) != nil && find(sub0.ID(), 1) != nil
+				}
 				if pr.Late {
 					return find(ca.ID(), target+1) != nil
 				}
@@ -138,6 +142,7 @@ func c04exec(t *testing.T, ssc schedrun.Scenario, o vsched.Options) (*vsched.Sch
 			if pr.Sub { // the oldest sub-channel state A holds
 				st := find(sub0.ID(), 0)
 				subs = []channel.SignedState{{Params: sub0.Params(), State: st.State, Sigs: st.Sigs}}
+				obs.advSubV = 0
 			}
 			w.tick()
 			obs.advAt = w.clock
@@ -276,7 +281,10 @@ func c04check(ssc schedrun.Scenario, s *vsched.Sched, o any) []schedrun.Verdict 
 	// registered (the watcher only reacts to events) and H's Settle, which always presents the
 	// current transaction, is refused for good. One mechanism, one signature (site names the
 	// mechanism, not the program), so that it can be listed as a known finding.
-	inFlight := obs.advErr == "" && (obs.registered < obs.hVer || (pr.Sub && obs.regSub < obs.hSubVer))
+	// ... only if the adversary registered what WAS H's newest state at that moment (parent and, if
+	// any, sub-channel): anything older at registration time is an ordinary outdated registration.
+	current := obs.vAtReg <= int64(pr.J+map[bool]int{true: 1, false: 0}[pr.Sub]) && (!pr.Sub || obs.subVAtReg <= obs.advSubV)
+	inFlight := current && obs.advErr == "" && (obs.registered < obs.hVer || (pr.Sub && obs.regSub < obs.hSubVer))
 	if obs.settle != "ok" || obs.payout < obs.hBalAtReg {
 		clause, st := "settle-failed", site
 		if obs.settle == "ok" {
@@ -318,6 +326,7 @@ func c04programs(thorough bool) []c04prog {
 	out = append(out, c04prog{Updates: 1, J: 0, Sub: true})
 	out = append(out, c04prog{Updates: 1, J: 0, Late: true}, c04prog{Updates: 2, J: 0, Late: true}, c04prog{Updates: 2, J: 1, Late: true})
 	out = append(out, c04prog{Updates: 1, J: 0, Late: true, FromStart: true})
+	out = append(out, c04prog{Updates: 1, J: 0, Sub: true, Late: true})
 	if thorough {
 		out = append(out, c04prog{Updates: 2, J: 0, Sub: true}, c04prog{Updates: 2, J: 1, Sub: true})
 	}
